@@ -223,16 +223,27 @@ CLAIMS.update({
     "C10": dict(
         text="PARTIAL. Proved for all programs: the descent lemma (C10_descent: messages and invalidity of a sub-statement "
              "propagate to the enclosing statement at any nesting depth, into Parallel blocks and parallel loops, by induction "
-             "on the statement tree) and 20 theorems 'has_fault_k p = true -> validate p <> Ok []' for decidable fault "
+             "on the statement tree) and 28 theorems 'has_fault_k p = true -> validate p <> Ok []' for decidable fault "
              "predicates: unknown task, unknown struct literal, unknown type (struct attribute, task input, call output), "
              "undeclared variable, unknown attribute, literal with missing / unknown attribute, duplicate struct / task / "
              "attribute / task input / call output, no productionTask, undeclared task output, wrong arity, recursive call, "
              "loop limit that is no number, ill-formed parallel loop; for ASTs of the grammar's shape 'not accepted' is 'at "
              "least one message' (C10_reported). Recursion (D8), faults inside parallel loops (D9), loop limits (D10), nested "
              "literal rules (D12a) and the raising lookups (D11) were refuted, were repaired in /repo and are now proved / "
-             "reported. Still REFUTED on the faithful model: guard typing (D12b). Classes without a theorem (argument types, "
-             "operand types, literal value types and lengths, deeper path steps) are covered by correspondence only: all 118 "
-             "catalogue entries x 8 position kinds x wrapping depth 0..3; all of them are reported.",
+             "reported. Properties/C10b.v adds the type classes, same shape, predicates that compute the type of a path "
+             "independently of the validator's lookups: argument of a task call whose type differs from the declared "
+             "input (variable, path also through array elements, struct literal; positional) and output type mismatch "
+             "(F17); guard operands that are reported (path that does not resolve or of type string / struct / array "
+             "where a boolean is required, < <= > >= on operands that are neither both numbers nor both strings, "
+             "arithmetic on a non-number) and loop limits that are no number (F04, F05, F18); struct literal values "
+             "that are not values of the declared type at any depth of nested structs and arrays of structs (primitive "
+             "class, missing / unknown / ill-typed nested attribute, wrong length incl. the empty list, ill-typed "
+             "element: F08, F09, nested F06 / F07); deeper path steps (F05e-i); array length by name (F03f). Every "
+             "catalogue entry of these classes satisfies the predicate of its class (by computation). Still REFUTED "
+             "on the faithful model: guard typing (D12b): literal or number as condition, numbers under And / Or / !, "
+             "boolean literal in arithmetic, operands of different types under == / !=, a comparison used as a number. "
+             "Correspondence: all 121 catalogue entries x 8 position kinds x wrapping depth 0..3; all of them except "
+             "the D12b entries are reported.",
         technique="Coq proof (induction on the statement tree, local lemma per fault class) + vm_compute witnesses "
                   "+ fault injection with differential correspondence",
         design_ref="DESIGN.md §9 C10 and Appendix B, docs/check_component.md", note=CHECK_NOTE),
